@@ -47,6 +47,14 @@ def _is_attr(node, dotted):
     return T.dotted(node) == dotted
 
 
+def _uncopy(node):
+    """x.copy() -> x (value copies do not matter to the combinatorial model)"""
+    while isinstance(node, ast.Call) and isinstance(node.func, ast.Attribute) and node.func.attr == "copy" \
+            and not node.args and not node.keywords:
+        node = node.func.value
+    return node
+
+
 def leaf_test(node, dexpr_ok, vname, lineno_node):
     """`<d> == 1 and <v> not in self.singularities` -> Gallina over (d : Z) (sing : bool)."""
     if not (isinstance(node, ast.BoolOp) and isinstance(node.op, (ast.And, ast.Or)) and len(node.values) == 2):
@@ -57,10 +65,6 @@ def leaf_test(node, dexpr_ok, vname, lineno_node):
             op, l, r = v.ops[0], v.left, v.comparators[0]
             if isinstance(op, (ast.In, ast.NotIn)) and isinstance(l, ast.Name) and l.id == vname \
                     and _is_attr(r, "self.singularities"):
-                parts.append("sing" if isinstance(op, ast.In) else "negb sing")
-                continue
-            if isinstance(op, (ast.In, ast.NotIn)) and isinstance(l, ast.Name) and l.id == vname \
-                    and _is_attr(r, "self.singu_set"):
                 parts.append("sing" if isinstance(op, ast.In) else "negb sing")
                 continue
             if dexpr_ok(l) and isinstance(r, ast.Constant) and isinstance(r.value, int):
@@ -167,14 +171,16 @@ def gen():
     appended = False
     for s in inner.body:
         if isinstance(s, ast.Assign) and isinstance(s.targets[0], ast.Name):
-            sub = s.value
+            sub = _uncopy(s.value)
             if not (isinstance(sub, ast.Subscript) and _is_attr(sub.value, "self.input_mesh.vertices")
                     and isinstance(sub.slice, ast.Name) and sub.slice.id == vn):
                 T.fail(REL, s, "corner position is not self.input_mesh.vertices[v]")
             pvn = s.targets[0].id
         elif _call_name(s) == "self._output_mesh.vertices.append":
-            a = s.value.args[0]
-            if not (isinstance(a, ast.Name) and a.id == pvn):
+            a = _uncopy(s.value.args[0])
+            direct = (isinstance(a, ast.Subscript) and _is_attr(a.value, "self.input_mesh.vertices")
+                      and isinstance(a.slice, ast.Name) and a.slice.id == vn)
+            if not ((isinstance(a, ast.Name) and a.id == pvn) or direct):
                 T.fail(REL, s, "appended vertex is not the corner position")
             appended = True
         elif isinstance(s, ast.Expr) and isinstance(s.value, ast.Call) and isinstance(s.value.func, ast.Attribute) \
